@@ -16,6 +16,7 @@ thread_local! {
 	static IN_CALLBACK: Cell<bool> = const { Cell::new(false) };
 	static FIRST_BT: RefCell<Option<String>> = const { RefCell::new(None) };
 	static LAST_PANIC: RefCell<Option<(String, String)>> = const { RefCell::new(None) };
+	static CATCHING: Cell<u32> = const { Cell::new(0) };
 }
 
 static WANT_BT: AtomicBool = AtomicBool::new(false);
@@ -131,7 +132,10 @@ fn payload_msg(p: &Box<dyn std::any::Any + Send>) -> String {
 /// Catches a panic anywhere (caller-thread code of kira, harness code), returning (location, message).
 pub fn catch<R>(f: impl FnOnce() -> R) -> Result<R, (String, String)> {
 	LAST_PANIC.with(|p| *p.borrow_mut() = None);
-	match panic::catch_unwind(AssertUnwindSafe(f)) {
+	CATCHING.with(|c| c.set(c.get() + 1));
+	let r = panic::catch_unwind(AssertUnwindSafe(f));
+	CATCHING.with(|c| c.set(c.get() - 1));
+	match r {
 		Ok(v) => Ok(v),
 		Err(payload) => {
 			let info = LAST_PANIC.with(|p| p.borrow_mut().take());
@@ -167,7 +171,8 @@ pub fn install_panic_hook() {
 		} else {
 			"<non-string panic>".into()
 		};
-		if VERBOSE_PANICS.load(Ordering::Relaxed) {
+		let caught = CATCHING.try_with(|c| c.get() > 0).unwrap_or(false) || IN_CALLBACK.try_with(|c| c.get()).unwrap_or(false);
+		if VERBOSE_PANICS.load(Ordering::Relaxed) || !caught {
 			eprintln!("[panic] {loc}: {msg}");
 		}
 		let _ = LAST_PANIC.try_with(|p| {
